@@ -1,5 +1,26 @@
 """Per-property configuration of the checks."""
 
+def _dest_of(toks):
+    """destination kind printed by the harness for this observation, or None"""
+    fam = toks[1] if len(toks) > 1 else ""
+    if fam in ("dy", "rat", "qi", "di") and len(toks) > 3:
+        return toks[3]
+    if fam == "poly" and len(toks) > 4:
+        return toks[4]
+    return None
+
+
+def _c19_viol_filter(viols):
+    """an output-operand defect shows only with non-fresh destinations: drop violation classes that also fail on fresh outputs
+    (those are arithmetic defects and belong to the property of that operation)"""
+    fresh_classes = set()
+    for v in viols:
+        toks = v.get("line", "").split(" ")
+        if _dest_of(toks) in ("f", "-", None):
+            fresh_classes.add(v.get("cls"))
+    return [v for v in viols if v.get("cls") not in fresh_classes or v.get("cls", "").startswith("refs")]
+
+
 def _dest_nonfresh(toks, res):
     # toks = [case, family, op, dest, ...]
     return len(toks) > 3 and toks[3] in ("p", "a", "b")
@@ -111,5 +132,26 @@ PROPS = {
                 "any equality/keep observation; distinct = distinct line.",
         "trusted_base": ["the layout of an object is modelled by the order in force when it was last (re)ordered (tracked by the harness)"],
         "assumptions": [],
+    },
+    "C19": {
+        "level": "proof",
+        "lean_targets": ["LP.Props.C19"],
+        "harnesses": [{"name": "h_mem", "quick": 6000, "thorough": 100000},
+                      {"name": "h_scalar", "quick": 40000, "thorough": 400000},
+                      {"name": "h_interval", "quick": 20000, "thorough": 200000},
+                      {"name": "h_poly", "quick": 20000, "thorough": 200000},
+                      {"name": "h_fsi", "quick": 1500, "thorough": 20000},
+                      {"name": "h_container", "quick": 4000, "thorough": 40000}],
+        "select": lambda t: t[1] == "refs" or _dest_of(t) in ("p", "a", "b", "c", "s"),
+        "nontrivial": lambda t, r: True,
+        "viol_filter": _c19_viol_filter,
+        "rule": "(1) reference-count histories (create/attach/detach/destroy of rings and contexts, external polynomials, vectors, "
+                "univariate polynomials, finite-field sets) with the ref_count fields read after every step; (2) every scalar, interval and "
+                "polynomial operation whose destination is a pre-used object of another shape, a constant, or an alias of an input; "
+                "(3) all of these plus the set/container histories run under ASan+UBSan+LSan, any report is a violation. Counted cases = "
+                "reference histories and operations with a non-fresh destination; distinct = distinct line.",
+        "trusted_base": ["memory-safety clause is monitored by sanitizers on the generated runs, not proved",
+                         "variable_db / variable_order counters are opaque structs: their lifetime is observed only through the sanitizers"],
+        "assumptions": ["holders are released at most once (balanced histories)"],
     },
 }
